@@ -333,7 +333,7 @@ func (g *schemaGuards) exprFormula(fi *core.FuncInfo, e ast.Expr, recv string, d
 			return &pf{op: '|', l: l, r: r}
 		case token.EQL, token.NEQ:
 			if core.IsNilExpr(info, x.Y) {
-				a := &pf{op: 'a', atom: normRecv(exprStr(x.X), recv) + " != nil"}
+				a := &pf{op: 'a', atom: g.canon(fi, x.X, recv) + " != nil"}
 				if x.Op == token.EQL {
 					return pNot(a)
 				}
@@ -374,7 +374,47 @@ func (g *schemaGuards) exprFormula(fi *core.FuncInfo, e ast.Expr, recv string, d
 			}
 		}
 	}
-	return &pf{op: 'a', atom: normRecv(exprStr(e), recv)}
+	return &pf{op: 'a', atom: g.canon(fi, e, recv)}
+}
+
+// canon renders an expression with local aliases of receiver-rooted paths resolved, so that atoms from
+// different methods (and from code using local aliases) unify: `items != nil` with items := a.schema.Items
+// becomes "$.schema.Items != nil".
+func (g *schemaGuards) canon(fi *core.FuncInfo, e ast.Expr, recv string) string {
+	info := g.c.info(fi)
+	e = core.Unparen(e)
+	if p := g.c.P.PathOf(fi, e, true); p != nil && p.Root != nil {
+		if id, ok := rootOfRecv(fi); ok && p.Root == info.Defs[id] {
+			return "$" + p.StepsString()
+		}
+	}
+	switch x := e.(type) {
+	case *ast.CallExpr:
+		var args []string
+		for _, a := range x.Args {
+			args = append(args, g.canon(fi, a, recv))
+		}
+		if sel, ok := core.Unparen(x.Fun).(*ast.SelectorExpr); ok {
+			if _, isSel := info.Selections[sel]; isSel {
+				return g.canon(fi, sel.X, recv) + "." + sel.Sel.Name + "(" + strings.Join(args, ",") + ")"
+			}
+		}
+		return exprStr(x.Fun) + "(" + strings.Join(args, ",") + ")"
+	case *ast.BinaryExpr:
+		return g.canon(fi, x.X, recv) + " " + x.Op.String() + " " + g.canon(fi, x.Y, recv)
+	case *ast.SelectorExpr:
+		if _, isSel := info.Selections[x]; isSel {
+			return g.canon(fi, x.X, recv) + "." + x.Sel.Name
+		}
+	}
+	return normRecv(exprStr(e), recv)
+}
+
+func rootOfRecv(fi *core.FuncInfo) (*ast.Ident, bool) {
+	if fi.Decl.Recv == nil || len(fi.Decl.Recv.List) != 1 || len(fi.Decl.Recv.List[0].Names) != 1 {
+		return nil, false
+	}
+	return fi.Decl.Recv.List[0].Names[0], true
 }
 
 // normRecv rewrites the receiver name to a canonical one so that atoms from different methods unify.
